@@ -242,3 +242,18 @@ package entropy
 //@   loop 3 invariant 0 <= j && j <= 8 && n == 8*i && 0 <= i && i <= lastMask && 0 <= lastMask && lastMask < 32 && 0 <= count && count <= 8*i + j && count <= len(alphabet)
 //@   loop 3 invariant forall k :: 0 <= k && k < count ==> 0 <= alphabet[k] && alphabet[k] < 8*i + j && (k > 0 ==> alphabet[k-1] < alphabet[k])
 //@   loop 3 decreases 8 - j
+
+//@ -- constructors of the NONE codec establish the non-nil bitstream that Write/Read require
+//@ func NewNullEntropyEncoder
+//@   mode int
+//@   props C12
+//@   ensures result1 == nil <==> bs != nil                                                               #rejects-only-a-nil-bitstream
+//@   ensures result1 == nil ==> result0 != nil && result0.bitstream == bs                                #bound-to-the-bitstream
+//@   modifies nothing
+
+//@ func NewNullEntropyDecoder
+//@   mode int
+//@   props C12
+//@   ensures result1 == nil <==> bs != nil                                                               #rejects-only-a-nil-bitstream
+//@   ensures result1 == nil ==> result0 != nil && result0.bitstream == bs                                #bound-to-the-bitstream
+//@   modifies nothing
